@@ -199,7 +199,7 @@ theorem isTz_tzText (off : Option Int) (h : offsetXsd off = true) : isTz (tzText
         omega
       rcases hs with hs | hs <;> rw [hs] <;>
         simp only [isTz, isTzOffset, e1, e2, expectChar_cons, hcond, List.isEmpty_cons, Bool.and_false,
-          Bool.false_or, decide_true, Bool.true_or, Bool.or_true, Bool.and_self]
+          decide_true, Bool.true_or, Bool.or_true, Bool.and_self]
 
 theorem isXsDateTime_render (d : DateTime) (hv : d.valid = true) (ho : offsetXsd d.offset = true) :
     isXsDateTime (bodyText d ++ tzText d.offset) = true := by
